@@ -101,7 +101,25 @@ func c15RoundTrip(kind, maxLZ int) {
 	verifrt.Reach("signed")
 	verifrt.Assert(err == nil && got != nil && string(got.Payload) == string(payload), "a JWS produced by the library's signer verifies under the matching public JWK and returns the payload unchanged")
 
-	switch verifrt.Choose("tamper", 8) {
+	switch verifrt.Choose("tamper", 9) {
+	case 8: // the caller supplies the payload bytes to be verified (detached payload)
+		s := segments(compact)
+		other := []byte("payload-" + verifrt.AnyAtom("payload2"))
+		verifrt.Assume(string(other) != string(payload))
+		switch verifrt.Choose("detached", 4) {
+		case 0: // other bytes than those signed, the compact form still carrying the signed payload
+			_, err := jwsutil.VerifyJWS(compact, k.jwk, jwsutil.WithJWSDetachedPayload(other))
+			verifrt.Assert(err != nil, "verification of the caller's payload bytes fails when the signature was made over other bytes")
+		case 1: // other bytes, payload segment empty
+			_, err := jwsutil.VerifyJWS(s[0]+".."+s[2], k.jwk, jwsutil.WithJWSDetachedPayload(other))
+			verifrt.Assert(err != nil, "verification of the caller's payload bytes fails when the signature was made over other bytes (empty payload segment)")
+		case 2: // the signed bytes, payload segment empty
+			got, err := jwsutil.VerifyJWS(s[0]+".."+s[2], k.jwk, jwsutil.WithJWSDetachedPayload(payload))
+			verifrt.Assert(err == nil && got != nil && string(got.Payload) == string(payload), "a JWS with detached payload verifies against the signed bytes and returns them")
+		case 3: // the signed bytes, the payload segment replaced by other content: what is verified and returned is the caller's payload
+			got, err := jwsutil.VerifyJWS(s[0]+"."+base64.RawURLEncoding.EncodeToString(other)+"."+s[2], k.jwk, jwsutil.WithJWSDetachedPayload(payload))
+			verifrt.Assert(err != nil || string(got.Payload) == string(payload), "a verified JWS never returns payload bytes the signature was not made over")
+		}
 	case 7: // the matching key with a coordinate of another width (an extra byte behind x, or x cut by one byte): another key
 		cp := *k.jwk
 		xb, derr := base64.RawURLEncoding.DecodeString(cp.X)
